@@ -18,11 +18,11 @@ func init() {
 
 // fpS is the path state of the fast-path protocol analysis.
 type fpS struct {
-	need    tri  // Tokens.Last.NeedObjectName()
-	ws      tri  // Flags.Get(AnyWhitespace)
-	phase   int8 // 0 idle, 1 value store pending Increment, 2 value incremented (needs flush check), 3 NeedFlush true (must return Flush), 4 name store pending Increment
-	disNS   bool // DisableNamespace() executed
-	replace int8 // ReplaceLastQuotedOffset calls since the name store
+	need    tri   // Tokens.Last.NeedObjectName()
+	ws      tri   // Flags.Get(AnyWhitespace)
+	phase   int8  // 0 idle, 1 value store pending Increment, 2 value incremented (needs flush check), 3 NeedFlush true (must return Flush), 4 name store pending Increment
+	disNS   bool  // DisableNamespace() executed
+	replace int8  // ReplaceLastQuotedOffset calls since the name store
 	boolNeg uint8 // bitmask of tracked stringify-like locals known false
 }
 
@@ -420,17 +420,36 @@ func ruleFP(c *Ctx, which string) {
 		}
 	}
 	if which == "FP-4" {
-		// the token-level writers end with `if NeedFlush() { return Flush() }`
-		for _, nm := range []string{"jsontext.(*encoderState).WriteToken", "jsontext.(*encoderState).WriteValue", "jsontext.(*encoderState).AppendRaw"} {
-			f := p.Func(nm)
-			if f == nil || f.Body() == nil {
-				c.Undecide(nm, "function missing")
-				continue
+		// the token-level writers end with `if NeedFlush() { return Flush() }`,
+		// written out or through a helper method that ends that way itself
+		deliv := p.deliveryFuncs()
+		memo := map[*FuncInfo]string{}
+		var check func(f *FuncInfo) string
+		check = func(f *FuncInfo) string {
+			if r, ok := memo[f]; ok {
+				return r
 			}
+			memo[f] = "" // recursion guard
 			// every store to e.Buf must be followed, on every path to a nil return, by the NeedFlush check
 			type st struct{ stored, checked bool }
 			bad := ""
+			flushRet := false
 			info := f.Info()
+			viaHelper := func(r *ast.ReturnStmt) bool {
+				if len(r.Results) != 1 {
+					return false
+				}
+				call, ok := ast.Unparen(r.Results[0]).(*ast.CallExpr)
+				if !ok {
+					return false
+				}
+				cf := Callee(info, call)
+				if cf == nil || !deliv[cf] || cf.Name() == "Flush" {
+					return false
+				}
+				g := p.FuncOf(cf)
+				return g != nil && g != f && check(g) == ""
+			}
 			fl := &Flow[st]{Fn: f}
 			fl.Node = func(n ast.Node, s st) []st {
 				switch x := n.(type) {
@@ -441,6 +460,10 @@ func ruleFP(c *Ctx, which string) {
 						}
 					}
 				case *ast.ReturnStmt:
+					if viaHelper(x) {
+						flushRet = true
+						return nil
+					}
 					if s.stored && !s.checked && bad == "" {
 						bad = "returns after committing Buf without consulting NeedFlush() at " + p.Position(x.Pos())
 					}
@@ -459,7 +482,6 @@ func ruleFP(c *Ctx, which string) {
 			}
 			fl.Run(st{})
 			// and the true branch returns Flush
-			flushRet := false
 			for _, ifs := range findAll[*ast.IfStmt](f.Body()) {
 				if call, ok := ast.Unparen(ifs.Cond).(*ast.CallExpr); ok {
 					if _, ok := MethodCall(info, call, "jsontext", "encoderState", "NeedFlush"); ok {
@@ -478,9 +500,73 @@ func ruleFP(c *Ctx, which string) {
 			if bad == "" && !flushRet {
 				bad = "no `if NeedFlush() { return Flush() }`"
 			}
+			memo[f] = bad
+			return bad
+		}
+		for _, nm := range []string{"jsontext.(*encoderState).WriteToken", "jsontext.(*encoderState).WriteValue", "jsontext.(*encoderState).AppendRaw"} {
+			f := p.Func(nm)
+			if f == nil || f.Body() == nil {
+				c.Undecide(nm, "function missing")
+				continue
+			}
+			bad := check(f)
 			c.Oblige("delivery:"+nm, f.Pos(), bad == "", bad)
 		}
 	}
+}
+
+// deliveryFuncs is the set of encoderState methods whose error result can only
+// be the result of (*encoderState).Flush: Flush itself and helpers every one of
+// whose returns is `nil` or a call to a member of the set.
+func (p *Program) deliveryFuncs() map[*types.Func]bool {
+	if p.deliv != nil {
+		return p.deliv
+	}
+	set := map[*types.Func]bool{}
+	p.deliv = set
+	if m := p.Method("jsontext", "encoderState", "Flush"); m != nil {
+		set[m] = true
+	}
+	for changed := true; changed; {
+		changed = false
+		for _, f := range p.FuncsIn("jsontext") {
+			if f.Decl == nil || f.Obj == nil || f.Body() == nil || set[f.Obj] {
+				continue
+			}
+			sig := f.Obj.Type().(*types.Signature)
+			if sig.Recv() == nil || !isNamed(sig.Recv().Type(), pkgAlias["jsontext"], "encoderState") || sig.Results().Len() != 1 || !isErrorType(sig.Results().At(0).Type()) {
+				continue
+			}
+			all, some := true, false
+			InspectNoLit(f.Body(), func(n ast.Node) bool {
+				r, ok := n.(*ast.ReturnStmt)
+				if !ok {
+					return true
+				}
+				if len(r.Results) != 1 {
+					all = false
+					return true
+				}
+				e := ast.Unparen(r.Results[0])
+				if IsNilIdent(f.Info(), e) {
+					return true
+				}
+				if call, ok := e.(*ast.CallExpr); ok {
+					if cf := Callee(f.Info(), call); cf != nil && set[cf] {
+						some = true
+						return true
+					}
+				}
+				all = false
+				return true
+			})
+			if all && some {
+				set[f.Obj] = true
+				changed = true
+			}
+		}
+	}
+	return set
 }
 
 // ---- STALE-3 -----------------------------------------------------------------
@@ -520,7 +606,23 @@ func ruleSTALE3(c *Ctx) {
 			return true
 		})
 		storesBack := false
+		// storeBackCall: a call handing the alias to a method that stores that parameter into Buf
+		storeBackCall := func(call *ast.CallExpr) bool {
+			cf := Callee(info, call)
+			if cf == nil {
+				return false
+			}
+			idx := bufStoreParam(p, cf, bufField)
+			if idx < 0 || idx >= len(call.Args) {
+				return false
+			}
+			v, _ := IdentObj(info, call.Args[idx]).(*types.Var)
+			return v != nil && alias[v]
+		}
 		InspectNoLit(f.Body(), func(nd ast.Node) bool {
+			if call, ok := nd.(*ast.CallExpr); ok && storeBackCall(call) {
+				storesBack = true
+			}
 			if as, ok := nd.(*ast.AssignStmt); ok {
 				for i, l := range as.Lhs {
 					if SelField(info, l) == bufField && i < len(as.Rhs) {
@@ -581,6 +683,18 @@ func ruleSTALE3(c *Ctx) {
 		}
 		who := map[token.Pos]string{}
 		fl.Node = func(nd ast.Node, s st) []st {
+			for _, call := range CallsIn(nd) {
+				if storeBackCall(call) {
+					if s.open && s.dirty != token.NoPos && bad == "" {
+						bad = fmt.Sprintf("%s may write Buf at %s between taking a local alias of Buf and storing it back at %s", who[s.dirty], p.Position(s.dirty), p.Position(call.Pos()))
+					}
+					s.open, s.dirty = false, token.NoPos
+					if _, isRet := nd.(*ast.ReturnStmt); isRet {
+						return nil
+					}
+					return []st{s}
+				}
+			}
 			if s.open && s.dirty == token.NoPos {
 				for _, call := range CallsIn(nd) {
 					if w, wh := mayWriteBuf(call); w {
@@ -632,4 +746,34 @@ func ruleSTALE3(c *Ctx) {
 		c.Oblige(f.Name, f.Pos(), bad == "", bad)
 	}
 	c.Floor("functions that alias Buf locally and store it back", n, 4)
+}
+
+// bufStoreParam returns the index of the parameter of cf that cf stores into
+// Buf (`recv.Buf = param` as a direct statement), or -1.
+func bufStoreParam(p *Program, cf *types.Func, bufField *types.Var) int {
+	g := p.FuncOf(cf)
+	if g == nil || g.Body() == nil {
+		return -1
+	}
+	sig := cf.Type().(*types.Signature)
+	idx := -1
+	InspectNoLit(g.Body(), func(nd ast.Node) bool {
+		as, ok := nd.(*ast.AssignStmt)
+		if !ok || len(as.Lhs) != len(as.Rhs) {
+			return true
+		}
+		for i, l := range as.Lhs {
+			if SelField(g.Info(), l) != bufField {
+				continue
+			}
+			v, _ := IdentObj(g.Info(), as.Rhs[i]).(*types.Var)
+			for j := 0; v != nil && j < sig.Params().Len(); j++ {
+				if sig.Params().At(j) == v {
+					idx = j
+				}
+			}
+		}
+		return true
+	})
+	return idx
 }
